@@ -199,16 +199,34 @@ def named(ctx):
     letters, digits = ce.const("constants.py", "asciiLetters"), ce.const("constants.py", "digits")
     space = ce.const("constants.py", "spaceCharacters")
     # R14.4
-    tests = [n for n in ast.walk(g.node) if isinstance(n, ast.If) and "fromAttribute" in norm(n.test) and "entityLength" in norm(n.test)]
+    tests = [n for n in ast.walk(g.node) if isinstance(n, ast.If) and "fromAttribute" in norm(n.test) and "entityName" in norm(n.test)]
     if len(tests) != 1:
         raise AnalysisError("consumeEntity: attribute-exception test not found")
     t = tests[0]
-    for name in ("amp;", "amp"):
+    # the statements of the block that contains the test, up to it (local aliases such as `nextChar = ...` are evaluated)
+    block = next((n.body for n in ast.walk(g.node) if isinstance(n, ast.If) and t in n.body), [t])
+    prelude = [s for s in block[:block.index(t)] if isinstance(s, ast.Assign)]
+    for name in ("not;", "not"):
         for from_attr in (True, False):
             for a in ATOMS:
-                env = {"entityName": name, "fromAttribute": from_attr, "charStack": [a], "entityLength": 0, "self": Opaque("self")}
+              for last in ((";", "x") if name == "not" and a in ("i", "1", "=", ";", " ", None) else (None,)):
+                # the characters consumed: the match, the character after it, and (possibly) one more that stopped the look-ahead
+                stack = list(name) + [a] + ([last] if last is not None else [])
+                env = {"entityName": name, "fromAttribute": from_attr, "charStack": stack, "entityLength": len(name), "self": Opaque("self")}
+                for s_ in prelude:
+                    try:
+                        env[norm(s_.targets[0])] = gi.eval_expr(s_.value, env)
+                    except Exception:       # noqa: BLE001 -- not a pure alias
+                        pass
                 got = gi.eval_guard(t.test, env)
                 exp = (not name.endswith(";")) and from_attr and isinstance(a, str) and (a in letters or a in digits or a == "=")
+                if last is not None:
+                    r.check("R14.4", got == exp, "attr-exception[%s,attr=%s,%s,then %s]" % (name, from_attr, atom_name(a), last),
+                            "%s:%d" % (REL, t.lineno),
+                            "match %r in an attribute value (%s), followed by %s and then %r: the reference is %s; the standard looks at the "
+                            "character right after the match and says %s (&noti; in an attribute must stay text)" % (
+                                name, from_attr, atom_name(a), last, "left as text" if got else "decoded", "left as text" if exp else "decoded"))
+                    continue
                 r.check("R14.4", got == exp, "attr-exception[%s,attr=%s,%s]" % (name, from_attr, atom_name(a)),
                         "%s:%d" % (REL, t.lineno),
                         "match %r, attribute context %s, next character %s: reference is %s; the standard says %s" % (
